@@ -310,6 +310,10 @@ fn run_one(dir: &str, mode: &str) -> Value {
             Err(e) => json!({"outcome": "err", "err": e.to_string(), "err_kind": err_kind(&e)}),
         },
         _ => match parse_locales(false, Some(path)) {
+            Ok((bk, warnings, tracked)) if mode == "nodump" => {
+                let _ = bk;
+                json!({"outcome": "ok", "warnings": warnings.into_inner().len(), "tracked": tracked.len()})
+            }
             Ok((bk, warnings, tracked)) => json!({
                 "outcome": "ok",
                 "bk": dump_builders_keys(&bk),
